@@ -453,7 +453,13 @@ def collection_bypass_obligations(w):
             covered = False
             for flag, coll in flags.items():
                 if coll in arg_locals and any(_is_flag_guard(cv, sw, flag) and vals == {False} for atom, vals, sw in cv.guards(bi)):
-                    covered = True
+                    miss = _scan_misses(w, cb, cv, flag, admits)
+                    if miss:
+                        bad = 'the scan in %s does not test items of kind %s (which can contain comments)' % (last(cb.short), miss)
+                    else:
+                        covered = True
+            if bad and not covered:
+                continue
             if not covered:
                 bad = 'the call in %s is not on the comment-free edge of a scan of the same collection (scans found: %s)' % (
                     last(cb.short), {cb.names.get(fl, fl): cb.names.get(c_, c_) for fl, c_ in flags.items()} or 'none')
@@ -464,6 +470,46 @@ def collection_bypass_obligations(w):
         else:
             out.append((True, cons, 'collection|%s' % last(f.short), 'every call site is on the comment-free edge of a scan over the same collection', f.loc()))
     return out
+
+
+def _scan_misses(w, cb, cv, flag, admits):
+    """kinds (among those that can contain comments) for which an iteration of the scan loop can finish without applying the no-comment test
+    to the item, other than because the flag is already set"""
+    from sites import evaluate_sequence
+    node_p = [i for i in range(1, cb.arg_count + 1) if cb.locals[i]['ty']['s'].startswith('&typst_syntax::SyntaxNode') or grammar.ast_type_name(cb.locals[i]['ty'])]
+    if not node_p:
+        return ['?']
+
+    def hook(ip, m, f, t, args):
+        rp = callee_path(t) or ''
+        rs = w_short(cv, t)
+        if NO_COMMENT_GUARD.search(rp) or NO_COMMENT_GUARD.search(rs):
+            n = None
+            for a in args:
+                a = ip.load(a) if isinstance(a, kf.Ref) else a
+                a = ip.load(a) if isinstance(a, kf.Ref) else a
+                if isinstance(a, kf.Node):
+                    n = a
+            m.events.append(('guard', n))
+        return None
+    missing = []
+    kinds = sorted(k for k in admits if k in grammar.CODE_EXPR or k in grammar.MATH_EXPR)
+    for K in kinds:
+        res = evaluate_sequence(w, cb, node_p[0], 'FieldAccess', [kf.Node('child', K)], hooks={'guard': hook}, with_wholes=True)
+        if res is None:
+            missing.append(K + ' (not evaluated)')
+            continue
+        for item in res:
+            loop, steps, assumed = item[0], item[1], item[2]
+            if loop is None or loop[0] != cb.short:
+                continue
+            if any(e[0] == 'guard' and isinstance(e[1], kf.Node) and e[1].kind == K for e in steps[0]):
+                continue
+            if any(len(a) > 4 and a[0] == cb.short and a[4] is True and _is_flag_guard(cv, a[1], flag) for a in assumed):
+                continue          # the flag was already set: nothing left to find out
+            missing.append(K)
+            break
+    return missing
 
 
 def _is_flag_guard(v, sw, flag):
